@@ -121,6 +121,10 @@ def run_case(case):
         for v in dd:
             spec[v] = {"kind": "disc", "n": int(rng.integers(12, 21))}
     sizes = rng.permutation([2, 3, 4, 5, 6, 7])[: n_ct]
+    if i % 7 == 5 and n_ct >= 1:
+        sizes = list(sizes)
+        sizes[0] = int(rng.integers(800, 2500))  # a long axis: node indices in the thousands
+        add("long_axis_cases")
     for v, n in zip(ct, sizes):
         if rng.random() < 0.35:
             st = float(rng.uniform(0.2, 3))
@@ -150,10 +154,16 @@ def run_case(case):
     arr = rng.normal(size=shape) * float(10 ** rng.uniform(-1, 3))
     jarr = jnp.asarray(arr)
     arr_used = np.asarray(jarr, dtype=float)
+    # the ORDER of the info dicts carries no meaning (axis_names defines the layout): shuffled
+    lk, ik = list(sp + dd), list(ct)
+    if i % 2 == 1:
+        lk = [str(x) for x in rng.permutation(lk)] if lk else lk
+        ik = [str(x) for x in rng.permutation(ik)] if ik else ik
+        add("info_dict_orders_shuffled")
     info = SpaceInfo(
         axis_names=(["state_index"] if sp else []) + dd + ct,
-        lookup_info={v: gridspecs[v] for v in sp + dd},
-        interpolation_info={v: gridspecs[v] for v in ct},
+        lookup_info={v: gridspecs[v] for v in lk},
+        interpolation_info={v: gridspecs[v] for v in ik},
         indexer_infos=[IndexerInfo(axis_names=sp, name="state_indexer", out_name="state_index")] if sp else [],
     )
     # process history: right before the judged representation, one for the same space with the
